@@ -11,6 +11,7 @@ package c11
 
 import (
 	"context"
+	"os"
 	"errors"
 	"fmt"
 	"strings"
@@ -249,6 +250,14 @@ func body(engine string, names []string) func(c *drv.Ctx) {
 			}
 			if _, err := idx.Search(bleve.NewSearchRequest(bleve.NewMatchAllQuery())); !isClosedErr(err) {
 				c.Fail("after-close:Search", "Search after Close returned %v", err)
+			}
+			// nothing of the index may remain open once Close has returned (whatever was in flight)
+			if fds, _ := os.ReadDir("/proc/self/fd"); len(fds) > 0 {
+				for _, fd := range fds {
+					if t, e := os.Readlink("/proc/self/fd/" + fd.Name()); e == nil && strings.HasPrefix(t, c.Dir+"/idx") {
+						c.Fail("close:file-left-open", "a file of the index is still open after Close returned: %s", strings.TrimPrefix(t, c.Dir))
+					}
+				}
 			}
 			var err error
 			pv, st := mc.Try(func() { err = idx.Close() })
